@@ -312,7 +312,8 @@ def exec_run(task, cd):
     r = inproc.run_main(argv, cd, main_program=mp, cwd=cd.root if task.get('cwd') == 'parent' else None)
     return dict(exit=r['exit'], exception=r['exception'], stdout=r['stdout'][:60000], stderr=r['stderr'][:20000],
                 marks=_marks(marker), home=cd.home, uid=os.getuid(), chmod0_readable=readable,
-                unsorted_globs=unsorted_globs, cwd_ok=r['cwd_after'] == r['cwd_before'], how='in-process')
+                unsorted_globs=unsorted_globs, cwd_ok=r['cwd_after'] == r['cwd_before'], how='in-process',
+                sandboxes_left=[n for n in os.listdir(cd.tmp) if n.startswith('exactly-')])
 
 
 def exec_subprocess(task, cd):
@@ -465,6 +466,9 @@ def compare(rec, p, o, junit=None):
                                                        p['marks'], want_marks)
     if not o.get('cwd_ok', True):
         return 'ProcessStateRestored: cwd'
+    if o.get('sandboxes_left'):
+        return 'SandboxesRemoved: %d sandbox(es) of the cases left behind: %s' % (len(o['sandboxes_left']),
+                                                                                   o['sandboxes_left'][:3])
     if rec['rep'] == 'progress':
         want = [list(e) for e in rec['log']] + [['ID', rec['final']]]
         if not same_events(p['events'], want):
@@ -842,6 +846,7 @@ def run(ctx):
     tasks, obs, projs = replay_runs(ctx, recs, 'all runs', subprocess_sample=(16 if quick else 200))
     phases['replay'] = round(time.time() - t0 - phases['tlc'], 1)
     negative_controls(ctx, recs, tasks, obs, projs)
+    listed_twice_family(ctx)
     stats = ctx.cov['replay']['all runs']
     if stats['unsorted_globs'] == 0:
         ctx.note('no glob line with several matches met a directory whose natural order differs from the sorted one')
@@ -893,7 +898,68 @@ def run(ctx):
     ]
 
 
+def listed_twice_family(ctx):
+    """A case file listed by two lines: how often it is then processed is not documented (not modelled).  Whatever
+    the program does, its reports must agree with what it did: the number of case lines of the progress reporter,
+    "Ran N tests", the executions themselves, and `tests` / the testcase elements of the JUnit report."""
+    files = [['top.suite', '[cases]\nb.case\n*.case\n'],
+             ['a.case', '[setup]\n$ echo ca >> %s\n[assert]\nexit-code == 0\n' % MARKER],
+             ['b.case', '[setup]\n$ echo cb >> %s\n[assert]\nexit-code == 1\n' % MARKER]]
+    base = dict(dirs=[], files=files, links=[], chmod0=[], globs=[], stub=False)
+    tasks = [dict(base, argv=['suite', 'top.suite']), dict(base, argv=['suite', '--reporter', 'junit', 'top.suite'])]
+    with ctx.pool(workers=2) as pool:
+        obs = pool.map('harness.props.c16:exec_run', tasks, deadline=120, chunk=1)
+    prog, ju = obs
+    problems = []
+    for o in obs:
+        if o.get('exception') or o.get('no_termination') or o.get('worker_died') or o.get('harness_exception'):
+            problems.append('Terminates/NoEscapingException')
+    if not problems:
+        n_exec = len(prog['marks'])
+        case_lines = [l for l in prog['stdout'].split('\n') if CASE_LINE.match(l)]
+        bad_lines = [l for l in case_lines if not l.endswith(('PASS', 'SKIPPED', 'XFAIL'))]
+        m = re.search(r'Ran (\d+) tests?', prog['stderr'])
+        if len(case_lines) != n_exec:
+            problems.append('ReportersAgree(listed twice): %d case lines for %d executions' % (len(case_lines), n_exec))
+        if m and int(m.group(1)) != n_exec:
+            problems.append('ReportersAgree(listed twice): "Ran %s tests" for %d executions' % (m.group(1), n_exec))
+        if (prog['exit'] == 0) != (not bad_lines):
+            problems.append('VerdictIffAllSucceed(listed twice): exit %s with unsuccessful lines %s' % (prog['exit'], bad_lines))
+        try:
+            root = ElementTree.fromstring(ju['stdout'])
+            suites = [root] if root.tag == 'testsuite' else list(root)
+            tests = sum(int(e.get('tests')) for e in suites)
+            elems = sum(len(e.findall('testcase')) for e in suites)
+            bad = sum(int(e.get('failures')) + int(e.get('errors')) for e in suites)
+            if not (tests == elems == len(ju['marks'])):
+                problems.append('ReportersAgree(listed twice): JUnit tests=%d, %d testcase elements, %d executions'
+                                % (tests, elems, len(ju['marks'])))
+            if len(ju['marks']) != n_exec:
+                problems.append('ReportersAgree(listed twice): %d executions with one reporter, %d with the other'
+                                % (n_exec, len(ju['marks'])))
+            if bad != len(bad_lines) * (len(ju['marks']) // max(n_exec, 1) if n_exec else 1):
+                problems.append('ReportersAgree(listed twice): JUnit failures + errors = %d, progress reporter %d'
+                                % (bad, len(bad_lines)))
+        except (ElementTree.ParseError, TypeError, ValueError) as ex:
+            problems.append('ReportersAgree(listed twice): JUnit report %s' % ex)
+    ctx.count()
+    ctx.nontrivial('listed-twice')
+    for pr in problems:
+        ctx.fail(pr.split(':')[0] + ' a case file listed by two lines',
+                 dict(kind='listed-twice', clause=pr, progress=prog, junit=ju))
+    ctx.cov['traces_validated_against_impl'] += 2
+    ctx.cov.setdefault('replay', {})['a case file listed by two lines (consistency only)'] = dict(
+        runs=2, disagreements=len(problems))
+
+
 def replay(ctx, rec):
+    if rec['record'].get('kind') == 'listed-twice':
+        before = len(ctx.violations)
+        listed_twice_family(ctx)
+        if len(ctx.violations) > before:
+            print('VIOLATION property=C16 replay=(given)')
+            return 1
+        return 0
     r = rec['record']
     t = r['task']
     f = 'harness.props.c16:exec_subprocess' if r.get('how') == 'subprocess' else 'harness.props.c16:exec_run'
